@@ -112,7 +112,17 @@ def run_case(case):
                         g.setLayout(op[1])
                         model['lay'] = op[1]
                     elif op[0] == 'write':
-                        g.getAllData()[:] = lay.block(PAT[op[1]], g.getLayout(g.currentLayout))
+                        blk = lay.block(PAT[op[1]], g.getLayout(g.currentLayout))
+                        if op[1] == 0:
+                            g.getAllData()[:] = blk
+                        elif len(shape) == 4:
+                            for i in range(blk.shape[0]):
+                                for j in range(blk.shape[1]):
+                                    g.get2DSlice(i, j)[:] = blk[i, j]
+                        else:
+                            for i in range(blk.shape[0]):
+                                for j in range(blk.shape[1]):
+                                    g.get1DSlice(i, j)[:] = blk[i, j]
                         model['data'] = op[1]
                     elif op[0] == 'save':
                         g.saveGridValues()
